@@ -46,8 +46,8 @@ CLAIMED.update({
     "C04": ("Proof of the per-goroutine stream-transformer contracts, for every stream length and port set: OutPort.Send / OutParamPort.Send deliver to every remote port exactly once (and to no other channel), receiveOnInPorts / receiveOnInParamPorts take exactly one item per port per round and report 'open' exactly when every port delivered, createTasks builds the k-th task from the k-th item of every port (lock-step, one task per complete input set, a single task without ports, channel closed once), NewTask covers exactly the path functions, Process.Run spawns Execute exactly once per received task and forwards every non-streaming output exactly once in arrival order, OutPort.Close / InPort.CloseConnection notify every remote exactly once and close the channel exactly when the last upstream closed (under the close lock), Workflow.runProcs starts every process of the run set exactly once and never the driver. Rely/guarantee: channel element invariants (every IP / task sent satisfies validIP / taskOK) are proved at every send and assumed at every receive.",
             "Assumed: Go channel semantics (the sequence received from a channel with one receiver is an order-preserving merge of the senders' sequences); composition of the per-process contracts into the workflow-level statement (Kahn argument) is on paper; no interference of other goroutines on the ports' RemotePorts maps while their owner iterates them; lock-step creation is proved for processes without joined in-ports (joined ports: C18); a carrier IP is consumed by one joined in-port only. Liveness (blocked sends eventually proceed) is not decidable here.",
             "3/C04"),
-    "C05": ("Proof of the safety half: Task.Execute signals Done only when the task was skipped or completely finalized with its slots released; Process.Run closes its out-ports only when the task channel is exhausted and the queue of started tasks is empty, and has then forwarded every task; OutPort.Close notifies every remote once.",
-            "NOT decided here (not applicable to this technique): that Run/RunTo returns after finitely many steps (deadlock freedom / termination is liveness). Known structural limitation F4 (a port-less driver does not wait for other branches) is documented in DESIGN.md; Sink.Run's drain contract is not yet under proof.",
+    "C05": ("Proof of the safety half: Task.Execute signals Done only when the task was skipped or completely finalized with its slots released; Process.Run closes its out-ports only when the task channel is exhausted and the queue of started tasks is empty, and has then forwarded every task; OutPort.Close notifies every remote once; the sink (default driver) returns only after taking one token from each draining go-routine it started, and a go-routine gives its token only after it saw its channel closed and empty.",
+            "NOT decided here (not applicable to this technique): that Run/RunTo returns after finitely many steps (deadlock freedom / termination is liveness). Known structural limitation F4 (a port-less driver does not wait for other branches) is documented in DESIGN.md. The step from 'as many tokens as go-routines' to 'one token from each' in Sink.Run is a counting argument outside the solver (each go-routine has exactly one send, proved as one-token).",
             "3/C05"),
     "C07": ("Proof of the safety lemmas behind the slot protocol and of the rejection clause: Process.Run rejects CoresPerTask > cap before creating any task or starting any execution; IncConcurrentTasks deposits tokens only while holding the acquisition mutex and releases it on every path; DecConcurrentTasks takes no lock and sends nothing; Execute releases exactly what it acquired.",
             "NOT decided here: 'waiting tasks eventually run' and 'k fitting tasks really execute simultaneously' are liveness/scheduling statements; the standard no-cycle-in-wait-for-graph argument from the proved lemmas is on paper.",
@@ -62,8 +62,11 @@ CLAIMED.update({
             "NOT decided here: that the consumer receives exactly the producer's bytes (kernel pipe semantics, two OS processes), which of the two concurrent tasks finishes first (audit link), termination of a re-run.",
             "3/C17"),
     "C18": ("Proof that NewTask drains the sub-stream channel of every joined in-port until it is closed and stores exactly the received sequence (whole sub-stream, once, arrival order), that formatCommand replaces the joined placeholder by the members' paths, each ../-prefixed unless absolute, joined by the separator in order, and that a joined port receives one carrier per task (createTasks).",
-            "Assumed: single receiver of the sub-stream channel; separator parsing in initPortsFromCmdPattern is not yet under contract; audit Upstream entries of the members: C10.",
+            "Assumed: single receiver of the sub-stream channel; the parts of a placeholder body contain no braces or bars (hypothesis of the separator clause of initPortsFromCmdPattern); capture-group axiom re.join.group for the join pattern literal; audit Upstream entries of the members: C10.",
             "3/C18"),
+    "C10": ("Proof that writeAuditLogs builds one record per task (id, process name, command, parameters, tags, timing), links every input's own record (looked up by path, sub-stream members included) under the input's path as Upstream, attaches that one record to every output IP and writes it next to every non-streaming output; sortedness/merging helpers of the audit tree.",
+            "Assumed: inputs of one task are distinct IP objects (inputsDistinct); the sidecar JSON on disk is what the in-memory record marshals to (encoding/json, C11); reading an upstream record back from its sidecar returns the record that was written (loadedAudit abstraction). Merging of upstream tags into the task's tags is not under proof (invariants too heavy for the solvers).",
+            "3/C10"),
 })
 
 NA = {
